@@ -61,6 +61,9 @@ var _ func(int, string) string = i_tuple_pipe[int, string]
 var _ func([]int) []int = i_rec_map
 var _ func(func() int, frt.Tuple2[int, string]) frt.Tuple2[int, []string] = i_annot
 var _ func(string) [][]string = i_lits[string]
+var _ func(int) []int = i_slice_second
+var _ func(int, int) []int = i_slice_third
+var _ func(string) []string = i_slice_call
 
 func Harness_C02_generic_uses() {
 	n := verifInt("n")
